@@ -105,7 +105,7 @@ def tlc_prints(out, tag):
     return res
 
 
-def export_programs(sc, name, family, extends='WireFamilies', timeout=1800):
+def export_programs(sc, name, family, extends='WireFamilies', timeout=1800, seed=1):
     """Pass 1: TLC enumerates the family as initial states and prints each program as JSON.
     `family` is either a TLA+ set expression or an Init predicate over the variable p
     (text containing "p ="/"p \\in" - recognised by the substring "(p,")."""
@@ -113,7 +113,7 @@ def export_programs(sc, name, family, extends='WireFamilies', timeout=1800):
     mod = ('---- MODULE %s ----\nEXTENDS %s, Json\nVARIABLE p\nInit == %s\nNext == UNCHANGED p\n'
            'Emit == PrintT(ToJson(p))\n====\n') % (name, extends, init)
     cfg = 'INIT Init\nNEXT Next\nINVARIANT Emit\nCHECK_DEADLOCK FALSE\n'
-    rc, o, dt = tlc(sc, name, mod, cfg, workers=1, timeout=timeout)
+    rc, o, dt = tlc(sc, name, mod, cfg, workers=1, timeout=timeout, extra_args=['-seed', str(seed)])
     if rc != 0:
         raise Broken('TLC enumeration of %s failed (rc=%s): %s' % (family, rc, o[-3000:]))
     progs = {}
@@ -163,7 +163,7 @@ def compute_expect(sc, name, progs, extends='WireFamilies', timeout=3600, par=No
 
 def export_cases(sc, name, family_expr, extends='WireFamilies', timeout=1800, pre_sample=None, seed=1, caseop='Case'):
     """Enumerate a family with TLC, optionally sample programs by seed, evaluate WireSem on them."""
-    progs = export_programs(sc, name, family_expr, extends, timeout)
+    progs = export_programs(sc, name, family_expr, extends, timeout, seed=seed)
     total = len(progs)
     if pre_sample and len(progs) > pre_sample:
         rnd = random.Random(seed)
